@@ -1,7 +1,7 @@
 (* C04 — object overlap and containment tests agree with exact solid geometry: property theorems.
    Statements only; each is closed by [exact] of a lemma of coq/C04/. *)
 From Coq Require Import QArith Qabs List Bool.
-From Scenic Require Import C17.Vec C04.Polytope C04.Overlap.
+From Scenic Require Import C17.Vec C04.Polytope C04.Overlap C04.Nested.
 Import ListNotations.
 Open Scope Q_scope.
 
@@ -59,7 +59,7 @@ Theorem C04_cascade_correct : forall (meets : Prop) (o : ioracle),
   (both_scaled o = true -> circ_far o = true -> ~ meets) ->
   (bbox_overlap o = false -> ~ meets) ->
   (surf_collide o = true -> meets) ->
-  (both_convex o = true -> surf_collide o = false -> ~ meets) ->
+  (a_convex o = true -> b_convex o = true -> surf_collide o = false -> ~ meets) ->
   (surf_collide o = false -> single_bodies o = true ->
      meets <-> a_has_b_point o = true \/ b_has_a_point o = true) ->
   (bool_nonempty o = true <-> meets) ->
@@ -73,7 +73,7 @@ Theorem C04_cascade_agrees_with_last_pass : forall (meets : Prop) (o : ioracle),
   (both_scaled o = true -> circ_far o = true -> ~ meets) ->
   (bbox_overlap o = false -> ~ meets) ->
   (surf_collide o = true -> meets) ->
-  (both_convex o = true -> surf_collide o = false -> ~ meets) ->
+  (a_convex o = true -> b_convex o = true -> surf_collide o = false -> ~ meets) ->
   (surf_collide o = false -> single_bodies o = true ->
      meets <-> a_has_b_point o = true \/ b_has_a_point o = true) ->
   (bool_nonempty o = true <-> meets) ->
@@ -107,16 +107,102 @@ Theorem C04_footprint_cascade_correct : forall (inside : Prop) (o : foracle),
 Proof. exact footprint_cascade_correct. Qed.
 Print Assumptions C04_footprint_cascade_correct.
 
+(* ---- round 2: nested configurations *)
+(* the strict-inside certificate: the whole closed e-neighbourhood (L-infinity) of hull A lies in the polytope H,
+   so A is inside WITHOUT surface contact (the configurations in which only passes 4/5 of intersects can answer) *)
+Theorem C04_inside_clear_sound : forall m e H A,
+  inside_clear m e H A = true ->
+  0 < e /\ forall p q, in_hull A p -> linf p q e -> in_halfspaces H q.
+Proof. exact inside_clear_sound. Qed.
+Print Assumptions C04_inside_clear_sound.
+
+(* hull of points of hull B is inside hull B; hence a guest whose vertices lie in a convex piece of the host
+   lies in it entirely and every point of the guest is a common point *)
+Theorem C04_hull_mono : forall A B, (forall a, In a A -> in_hull B a) -> forall p, in_hull A p -> in_hull B p.
+Proof. exact hull_mono. Qed.
+Print Assumptions C04_hull_mono.
+
+Theorem C04_nested_overlap : forall A B, (forall a, In a A -> in_hull B a) ->
+  forall p, in_hull A p -> in_hull A p /\ in_hull B p.
+Proof. exact nested_overlap. Qed.
+Print Assumptions C04_nested_overlap.
+
+(* the PASS 3 early exit taken when EITHER region is convex (instead of both) is wrong: an oracle valuation
+   satisfying every hypothesis of C04_cascade_correct (a convex object strictly inside one arm of a non-convex
+   one) is reported disjoint *)
+Theorem C04_convex_or_exit_refuted : exists (meets : Prop) (o : ioracle),
+  (centre_far o = true -> ~ meets) /\
+  (both_scaled o = true -> in_near o = true -> meets) /\
+  (both_scaled o = true -> circ_far o = true -> ~ meets) /\
+  (bbox_overlap o = false -> ~ meets) /\
+  (surf_collide o = true -> meets) /\
+  (a_convex o = true -> b_convex o = true -> surf_collide o = false -> ~ meets) /\
+  (surf_collide o = false -> single_bodies o = true ->
+     (meets <-> a_has_b_point o = true \/ b_has_a_point o = true)) /\
+  (bool_nonempty o = true <-> meets) /\
+  meets /\ fst (intersects_vol_or o) = false /\ fst (intersects_vol o) = true.
+Proof. exact convex_or_exit_refuted. Qed.
+Print Assumptions C04_convex_or_exit_refuted.
+
+(* ---- round 2: containsObject passes 3/4 with candidate points that may be random samples: for arbitrary point
+   sets O (object) and R (region) and exact kernels, the verdict is correct for EVERY admissible choice of the
+   candidate points (a point of O or none; a point of R or none), hence independent of the samples drawn *)
+Theorem C04_contains_pts_correct :
+  forall (O R : vec -> Prop) (reg_has : vec -> bool) (surf_dist obj_circ reg_circ : vec -> Q) (obj_far : vec -> bool)
+         (bbox_ov convex corners_in verts_in diff_empty : bool),
+  (forall x, reg_has x = true <-> R x) ->
+  (forall x p, O p -> dist2 p x <= obj_circ x * obj_circ x) ->
+  (forall x, 0 <= obj_circ x) ->
+  (forall x p, R x -> dist2 p x < surf_dist x * surf_dist x -> R p) ->
+  (forall y p, R p -> dist2 p y <= reg_circ y * reg_circ y) ->
+  (forall y, obj_far y = true -> exists v, O v /\ reg_circ y * reg_circ y < dist2 v y) ->
+  (bbox_ov = false -> ~ inside O R) ->
+  (convex = true -> corners_in = true -> inside O R) ->
+  (convex = true -> (verts_in = true <-> inside O R)) ->
+  (diff_empty = true <-> inside O R) ->
+  forall s r, admissible O R s r ->
+  (contains_obj_pts reg_has surf_dist obj_circ obj_far bbox_ov convex corners_in verts_in diff_empty s r = true
+   <-> inside O R).
+Proof. exact contains_pts_correct. Qed.
+Print Assumptions C04_contains_pts_correct.
+
+Theorem C04_contains_pts_independent :
+  forall (O R : vec -> Prop) (reg_has : vec -> bool) (surf_dist obj_circ reg_circ : vec -> Q) (obj_far : vec -> bool)
+         (bbox_ov convex corners_in verts_in diff_empty : bool),
+  (forall x, reg_has x = true <-> R x) ->
+  (forall x p, O p -> dist2 p x <= obj_circ x * obj_circ x) ->
+  (forall x, 0 <= obj_circ x) ->
+  (forall x p, R x -> dist2 p x < surf_dist x * surf_dist x -> R p) ->
+  (forall y p, R p -> dist2 p y <= reg_circ y * reg_circ y) ->
+  (forall y, obj_far y = true -> exists v, O v /\ reg_circ y * reg_circ y < dist2 v y) ->
+  (bbox_ov = false -> ~ inside O R) ->
+  (convex = true -> corners_in = true -> inside O R) ->
+  (convex = true -> (verts_in = true <-> inside O R)) ->
+  (diff_empty = true <-> inside O R) ->
+  forall s r s' r', admissible O R s r -> admissible O R s' r' ->
+  contains_obj_pts reg_has surf_dist obj_circ obj_far bbox_ov convex corners_in verts_in diff_empty s r =
+  contains_obj_pts reg_has surf_dist obj_circ obj_far bbox_ov convex corners_in verts_in diff_empty s' r'.
+Proof. exact contains_pts_independent. Qed.
+Print Assumptions C04_contains_pts_independent.
+
+(* non-vacuity of the round-2 statements: a unit cube strictly inside the cube [-2,2]^3 with clearance 1/4 *)
+Example C04_inside_clear_example :
+  inside_clear 1 (1#4)
+    [(V3 1 0 0, 2); (V3 (-1) 0 0, 2); (V3 0 1 0, 2); (V3 0 (-1) 0, 2); (V3 0 0 1, 2); (V3 0 0 (-1), 2)]
+    [V3 0 0 0; V3 1 0 0; V3 0 1 0; V3 1 1 1] = true /\
+  inside_clear 1 (1#4) [(V3 1 0 0, 2)] [V3 (3#2) 0 0] = false.
+Proof. split; vm_compute; reflexivity. Qed.
+
 (* non-vacuity: each exit of the cascade is reachable; the certificate checkers accept real certificates *)
 Example C04_every_pass_reachable :
-  snd (intersects_vol (IOr true false false false false false false false false false false)) = IP1 /\
-  snd (intersects_vol (IOr false true true false false false false false false false false)) = IP2A_in /\
-  snd (intersects_vol (IOr false true false true false false false false false false false)) = IP2A_out /\
-  snd (intersects_vol (IOr false false false false false false false false false false false)) = IP2B /\
-  snd (intersects_vol (IOr false true false false true true false false false false false)) = IP3_hit /\
-  snd (intersects_vol (IOr false true false false true false true false false false false)) = IP3_convex /\
-  snd (intersects_vol (IOr false true false false true false false true true false false)) = IP4 /\
-  snd (intersects_vol (IOr false true false false true false false false false false true)) = IP5.
+  snd (intersects_vol (IOr true false false false false false false false false false false false)) = IP1 /\
+  snd (intersects_vol (IOr false true true false false false false false false false false false)) = IP2A_in /\
+  snd (intersects_vol (IOr false true false true false false false false false false false false)) = IP2A_out /\
+  snd (intersects_vol (IOr false false false false false false false false false false false false)) = IP2B /\
+  snd (intersects_vol (IOr false true false false true true false false false false false false)) = IP3_hit /\
+  snd (intersects_vol (IOr false true false false true false true true false false false false)) = IP3_convex /\
+  snd (intersects_vol (IOr false true false false true false true false true true false false)) = IP4 /\
+  snd (intersects_vol (IOr false true false false true false false false false false false true)) = IP5.
 Proof. exact every_pass_reachable. Qed.
 
 Example C04_certificates_example :
